@@ -20,7 +20,7 @@ open ConcVerif.LR (Side lk LK)
 
 /-- unfold every per-pc step function -/
 macro "cow_unfold " hs:ident : tactic => `(tactic|
-  simp [stepIdle, stepRdA, stepRdH, stepRdD, stepDr, stepLkCalled, stepLkA, stepLkH, stepLkC, stepLkD, stepLkT, stepLkTD,
+  simp [stepIdle, stepRdA, stepRdH, stepRdP, stepRdD, stepDr, stepLkCalled, stepLkA, stepLkH, stepLkC, stepLkD, stepLkT, stepLkTD,
     stepLkExc, stepWHold, stepRelA, stepRelB, stepRelC, stepRelU, stepCn] at $hs:ident)
 
 /-! ## a snapshot is immutable: every write goes to a private, unpublished copy -/
